@@ -793,6 +793,11 @@ func (m *Manager) configureTasks(envId uid.ID, tasks Tasks) error {
 		if respError != nil {
 			errText := respError.Error()
 			if len(strings.TrimSpace(errText)) != 0 {
+				if singleNonCriticalTarget(tasks) {
+					log.WithField("partition", envId).
+						Warnf("CONFIGURE could not complete for non-critical task, error: %s", errText)
+					return nil
+				}
 				return errors.New(response.Err().Error())
 			}
 			// FIXME: improve error handling ↑
@@ -800,6 +805,23 @@ func (m *Manager) configureTasks(envId uid.ID, tasks Tasks) error {
 	}
 
 	return nil
+}
+
+// singleNonCriticalTarget reports whether a command went to exactly one task and
+// that task is not critical: its failure must not fail the transition, exactly
+// as for non-critical entries of a multi-target response.
+func singleNonCriticalTarget(tasks Tasks) bool {
+	if len(tasks) != 1 || tasks[0] == nil {
+		return false
+	}
+	t := tasks[0]
+	if t.GetTraits().Critical {
+		return false
+	}
+	if parent := t.GetParent(); parent != nil && parent.GetTaskTraits().Critical {
+		return false
+	}
+	return true
 }
 
 func (m *Manager) transitionTasks(envId uid.ID, tasks Tasks, src string, event string, dest string, commonArgs controlcommands.PropertyMap) error {
@@ -878,6 +900,11 @@ func (m *Manager) transitionTasks(envId uid.ID, tasks Tasks, src string, event s
 		if respError != nil {
 			errText := respError.Error()
 			if len(strings.TrimSpace(errText)) != 0 {
+				if singleNonCriticalTarget(tasks) {
+					log.WithField("partition", envId).
+						Warnf("%s could not complete for non-critical task, error: %s", event, errText)
+					return nil
+				}
 				return errors.New(response.Err().Error())
 			}
 			// FIXME: improve error handling ↑
